@@ -143,6 +143,11 @@ pub struct LinkEnd {
     pub recv_grant: u32,
     pub sink: SinkState,
     pub fused: bool,
+    /// the receiving direction has failed and stays silent afterwards: the error was delivered, nothing follows,
+    /// not even the end of the stream (the `WebSocket` trait promises nothing about what comes after an error)
+    pub mute: bool,
+    /// the next transport failure of this receiving direction is of the silent kind
+    pub err_then_silent: bool,
     /// per-step logs
     pub sent_log: Vec<Message>,
     pub rcv_log: Option<WireItem>,
@@ -161,6 +166,8 @@ impl Link {
             recv_grant: 0,
             sink: SinkState::Open,
             fused: false,
+            mute: false,
+            err_then_silent: false,
             sent_log: Vec::new(),
             rcv_log: None,
         };
@@ -225,6 +232,9 @@ impl WebSocket for SimWs {
         _cx: &mut Context<'_>,
     ) -> Poll<Option<Result<Message, penguin_mux::Error>>> {
         let mut l = self.link.lock().unwrap();
+        if l.ends[self.me].mute {
+            return Poll::Pending;
+        }
         if l.ends[self.me].fused {
             return Poll::Ready(None);
         }
@@ -253,7 +263,11 @@ impl WebSocket for SimWs {
                 Poll::Ready(None)
             }
             WireItem::Err => {
-                l.ends[self.me].fused = true;
+                if l.ends[self.me].err_then_silent {
+                    l.ends[self.me].mute = true;
+                } else {
+                    l.ends[self.me].fused = true;
+                }
                 Poll::Ready(Some(Err(ws_err())))
             }
         }
@@ -1341,15 +1355,19 @@ impl Sim {
                 {
                     let mut l = self.link.lock().unwrap();
                     match kind {
-                        "cutsrc" => {
-                            if l.ends[i].fused {
+                        // "cutsrcs": the same failure on a transport that stays silent after the error instead of
+                        // reporting the end of the stream (the specification does not distinguish the two: nothing may
+                        // be read after an error)
+                        "cutsrc" | "cutsrcs" => {
+                            if l.ends[i].fused || l.ends[i].mute {
                                 return false;
                             }
+                            l.ends[i].err_then_silent = kind == "cutsrcs";
                             l.ends[1 - i].wire.clear();
                             l.ends[1 - i].wire.push_back(WireItem::Err);
                         }
                         "endsrc" => {
-                            if l.ends[i].fused {
+                            if l.ends[i].fused || l.ends[i].mute {
                                 return false;
                             }
                             l.ends[1 - i].wire.push_back(WireItem::Eos);
